@@ -630,7 +630,7 @@ class Node:
                 raise ValueError("Cannot set ID for deep copies.")
             source_node = child
             if source_node._tree is self._tree:
-                if source_node._parent is self._parent:
+                if source_node._parent is self:
                     raise UniqueConstraintError(
                         f"Same parent not allowed: {source_node}"
                     )
